@@ -88,6 +88,9 @@ func GenCase(r *vh.Rng, flavor string) Case {
 			c.FailMode = "close"
 		}
 	}
+	if r.Chance(30) {
+		c.DelayMs = []int{8, 15}[r.Intn(2)] // reactive.WriteThenReadDelay: re-runs wait, holding the rerunner's lock
+	}
 	// application middlewares registered with conn.Use, behind the harness's observer
 	c.Middlewares = r.Intn(8)
 	if c.Middlewares > 0 {
@@ -118,7 +121,7 @@ func GenCase(r *vh.Rng, flavor string) Case {
 		c.Ops = append(c.Ops, Op{Op: "subscribe", ID: id, Q: r.Intn(FirstBadSubQuery), Sync: genSync(r)})
 		live[id] = true
 	}
-	fieldQuery := map[string]int{"a": 0, "s": 1, "items": 2, "obj": 3, "flag": 7, "tick": 8}
+	fieldQuery := map[string]int{"a": 0, "s": 1, "items": 2, "obj": 3, "flag": 7, "tick": 8, "f": 10}
 	stale, blocked, slowmw := -1, -1, -1
 	if r.Chance(15) {
 		slowmw = r.Intn(n)
@@ -231,8 +234,23 @@ func GenCase(r *vh.Rng, flavor string) Case {
 			case "items":
 				items = genItems(r, items)
 				o.Items = append([]Item{}, items...)
+			case "f":
+				o.Int = int64(r.Intn(5) - 1)
+				if r.Chance(30) {
+					o.Str = r.Pick([]string{"nan", "inf", "-inf"}) // not encodable as JSON
+				}
 			}
 			c.Ops = append(c.Ops, o)
+			if c.DelayMs > 0 && o.Sync != "settle" && r.Chance(35) {
+				// a stop right after an invalidation: the re-run is inside its write-then-read delay
+				if l := liveIDs(); len(l) > 0 && r.Chance(85) {
+					id := l[r.Intn(len(l))]
+					delete(live, id)
+					c.Ops = append(c.Ops, Op{Op: "unsubscribe", ID: id, Sync: genSync(r)})
+				} else if r.Chance(30) {
+					c.Ops = append(c.Ops, Op{Op: "close"})
+				}
+			}
 		case k < wData+wLife: // lifecycle
 			switch j := r.Intn(100); {
 			case j < 42: // subscribe
